@@ -105,6 +105,11 @@ pub struct Run {
     pub want_fp: bool,
     /// known findings excluded by construction in this run (signature -> count)
     pub excluded_known: u32,
+    /// the property this run is checked for. For the model-independent properties (C01, C17, C18:
+    /// their oracles only use observed facts, never a world's reference model) a violation of
+    /// another property does not stop the history, it is kept in `other`.
+    pub focus: Option<&'static str>,
+    pub other: Option<Violation>,
     step_now: usize,
 }
 
@@ -122,8 +127,21 @@ impl Run {
             allow_probe: true,
             want_fp: false,
             excluded_known: 0,
+            focus: None,
+            other: None,
             step_now: 0,
         }
+    }
+    fn keeps_going(&self, prop: &str, also: Option<&str>, kind: &str) -> bool {
+        match self.focus {
+            Some(f) if matches!(f, "C01" | "C17" | "C18") => prop != f && also != Some(f) && kind != "panic",
+            _ => false,
+        }
+    }
+    pub fn for_prop(prop: &'static str) -> Run {
+        let mut r = Run::new();
+        r.focus = Some(prop);
+        r
     }
     pub fn set_step(&mut self, i: usize) {
         self.step_now = i;
@@ -132,12 +150,24 @@ impl Run {
         self.step_now
     }
     pub fn violate(&mut self, prop: &'static str, kind: &'static str, detail: String) {
+        if self.keeps_going(prop, None, kind) {
+            if self.other.is_none() {
+                self.other = Some(Violation { prop, also: None, kind, detail, step: self.step_now });
+            }
+            return;
+        }
         if self.violation.is_none() {
             self.violation = Some(Violation { prop, also: None, kind, detail, step: self.step_now });
         }
     }
     /// a violation that contradicts two properties
     pub fn violate2(&mut self, prop: &'static str, also: &'static str, kind: &'static str, detail: String) {
+        if self.keeps_going(prop, Some(also), kind) {
+            if self.other.is_none() {
+                self.other = Some(Violation { prop, also: Some(also), kind, detail, step: self.step_now });
+            }
+            return;
+        }
         if self.violation.is_none() {
             self.violation = Some(Violation { prop, also: Some(also), kind, detail, step: self.step_now });
         }
@@ -657,3 +687,22 @@ pub fn check_heap_queue(snap: &Snapshot, views: &[SlotView], run: &mut Run, orde
         }
     }
 }
+
+/// Decodes a raw generated triple into an op of the world (monotone maps so shrinking works).
+pub fn decode_op(specs: &[OpSpec], total_weight: u32, raw: (u16, u8, u8)) -> Op {
+    let mut pick = (raw.0 as u64 * total_weight as u64) >> 16;
+    let mut code = 0usize;
+    for (i, s) in specs.iter().enumerate() {
+        if pick < s.weight as u64 {
+            code = i;
+            break;
+        }
+        pick -= s.weight as u64;
+        code = i;
+    }
+    let s = &specs[code];
+    let a = if s.an == 0 { 0 } else { ((raw.1 as u32 * s.an as u32) >> 8) as u8 };
+    let b = if s.bn == 0 { 0 } else { ((raw.2 as u32 * s.bn as u32) >> 8) as u8 };
+    Op { code: code as u8, a, b }
+}
+
